@@ -54,6 +54,7 @@ struct vs_explore {
      * thread not finished but none runnable.  Return false to stop exploring. */
     bool (*finish)(void *ctx, const uint8_t *sched, int len, bool stuck);
     void (*after_step)(void *ctx, int t);     /* optional: observe after each step */
+    void (*step)(void *ctx, int t);           /* optional: macro-step function (default: vs_step(t)) */
     void *ctx;
     int preemption_bound;                     /* -1 = unbounded */
     long max_runs;                            /* stop after this many runs (0 = no limit) */
